@@ -4,6 +4,7 @@
 //! Worker response = `<observables>` [TAB `#FAIL:<reason>`]. The observables are compared with
 //! the model's; the `#FAIL` suffix is the property's own oracle evaluated on the real code.
 
+mod deb;
 mod pgp;
 mod util;
 
@@ -26,12 +27,16 @@ fn dispatch(op: &str, args: &[&str]) -> Option<Resp> {
     if let Some(r) = pgp::handle(op, args) {
         return Some(r);
     }
+    if let Some(r) = deb::handle(op, args) {
+        return Some(r);
+    }
     None
 }
 
 fn generate(prop: &str, tier: &str, seed: u64, out: &mut util::Out) {
     match prop {
         "C19" => pgp::generate(tier, seed, out),
+        "C01" => deb::generate_c01(tier, seed, out),
         _ => {}
     }
 }
